@@ -13,6 +13,7 @@ import (
 func ImpliedSchema(spec Spec) *hcl.BodySchema {
 	var attrs []hcl.AttributeSchema
 	var blocks []hcl.BlockHeaderSchema
+	attrIdx := make(map[string]int)
 
 	// visitSameBodyChildren walks through the spec structure, calling
 	// the given callback for each descendent spec encountered. We are
@@ -20,7 +21,22 @@ func ImpliedSchema(spec Spec) *hcl.BodySchema {
 	var visit visitFunc
 	visit = func(s Spec) {
 		if as, ok := s.(attrSpec); ok {
-			attrs = append(attrs, as.attrSchemata()...)
+			// The same attribute can be requested more than once, e.g. by
+			// a DefaultSpec (which reports its children's attributes itself
+			// and is then also visited child by child) or by two specs that
+			// read the same attribute. A schema must name it only once,
+			// because a body treats a second mention of an already-consumed
+			// required attribute as missing.
+			for _, attrS := range as.attrSchemata() {
+				if i, exists := attrIdx[attrS.Name]; exists {
+					if attrS.Required {
+						attrs[i].Required = true
+					}
+					continue
+				}
+				attrIdx[attrS.Name] = len(attrs)
+				attrs = append(attrs, attrS)
+			}
 		}
 
 		if bs, ok := s.(blockSpec); ok {
